@@ -1,29 +1,61 @@
 """Which units / harnesses decide which property (see DESIGN.md section 5)."""
 
 A_COMMON = [
+    'A1 Verus 0.2026.09.13/z3, Kani 0.68/CBMC 6.11, rustc, and the extraction rules D1..D16 of vf/extract.py',
+    'A2 bytes 1.8.0 (BytesMut::put_slice, Bytes::{len,split_to,clone}, Buf::{remaining,chunk,advance,copy_to_slice,get_u8}) behaves as the assumed sequence specifications in vf/spec/prelude.rs, including the documented panic preconditions; a Bytes never holds more than isize::MAX bytes',
     'A3 integer-encoding 4.0.2 VarInt::{encode_var,required_space,decode_var} for i16/i32/i64/u32 behave as zig-zag ULEB128 (assumed in Verus; proved on the real crate by the Kani harnesses a3_varint_*)',
-    'A1 Verus 0.2026.09.13/z3, Kani 0.68/CBMC, rustc, and the extraction rules D1..D14 of vf/extract.py',
-    'A2 bytes 1.8.0 (BytesMut::put_slice, Bytes::{len,split_to,clone}, Buf::{remaining,chunk,advance,copy_to_slice,get_u8}) behaves as the assumed sequence specifications in vf/spec/prelude.rs, including the documented panic preconditions',
     'A4 linkedbytes 0.1.8 bytes_mut/insert/insert_faststr and faststr len/as_ref/clone/from_bytes_unchecked: view = concatenation',
-    'A5 core intrinsics: {i,u}{16,32,64}::to_{be,le}_bytes, f64::to_bits/from_bits, Result::and_then, From<T> for Option<T>/T, str::len/as_bytes (byte view)',
+    'A5 core intrinsics: {i,u}{16,32,64}::to_{be,le}_bytes (checked by Kani harness a5_int_bytes), f64::to_bits/from_bits, Result::and_then, From<T> for Option<T>/T, From<Bytes> for Vec<u8>, derive(Default), str::len/as_bytes (byte view)',
     'A8 error values are opaque: all errors of a type are one abstract value; only which branch returns Err is modelled',
-    'A11 the running zero_copy_len total does not overflow usize; A12 lengths/counts handed to writers fit a non-negative i32 (Thrift wire limit) -- both are explicit requires clauses',
+    'A11 the running zero_copy_len total does not overflow usize; A12 lengths/counts handed to writers fit a non-negative i32 (Thrift wire limit); the field-id stack holds fewer than usize::MAX entries -- all explicit requires clauses',
+    'io_read_impl! readers of rw_ext.rs (unsafe pointer cast, macro-only) enter Verus as assumed contracts; the same statements are proved on the real code by the Kani harnesses rwext_read_*',
     'usize is 64 bits (global size_of usize == 8)',
 ]
+NOT_GEN = 'generated (pilota-build emitted) code is not covered: see not_applicable C02'
+
+THRIFT_UNITS = ['binary', 'binary_le', 'compact']
+K_SUPPORT = ['a3_varint_i16', 'a3_varint_i32', 'a3_varint_u32', 'a3_varint_i64', 'a3_varint_decode_total', 'a5_int_bytes',
+             'rwext_read_i16', 'rwext_read_i16_le', 'rwext_read_i32', 'rwext_read_i32_le', 'rwext_read_i64', 'rwext_read_i64_le',
+             'rwext_read_u64', 'rwext_read_u64_le']
+K_C11_W = ['c11_w_bool', 'c11_w_byte_i8', 'c11_w_i16', 'c11_w_i32', 'c11_w_i64', 'c11_w_double', 'c11_w_uuid', 'c11_w_field',
+           'c11_w_containers', 'bnd_c11_w_bytes_le5']
+K_C11_R = ['c11_r_i8_bool_byte', 'c11_r_i16', 'c11_r_i32', 'c11_r_i64_double', 'c11_r_uuid']
+K_PB = ['pb_varint_roundtrip', 'pb_varint_decode_total', 'pb_bool', 'pb_int32', 'pb_int64', 'pb_uint32', 'pb_uint64', 'pb_sint32', 'pb_sint64',
+        'pb_fixed32', 'pb_sfixed32', 'pb_float', 'pb_fixed64', 'pb_sfixed64', 'pb_double']
 
 PROPS = {
-    'C01': dict(
-        verus=['binary', 'binary_le', 'compact'],
-        kani=[],
-        assumptions=A_COMMON,
-        not_covered='generated code (C02); unchecked binary codec is decided under C11',
-    ),
+    'C01': dict(verus=THRIFT_UNITS, kani=K_SUPPORT + K_C11_W + K_C11_R, assumptions=A_COMMON,
+                not_covered=NOT_GEN + '; unchecked read_field_begin/list/set/map_begin and zero-copy LinkedBytes paths of the unchecked writer are not under a harness (CBMC cost)'),
+    'C03': dict(verus=THRIFT_UNITS, kani=K_SUPPORT, assumptions=A_COMMON,
+                not_covered=NOT_GEN + '; ApplicationException::{encode,decode} not yet under contract'),
+    'C04': dict(verus=THRIFT_UNITS, kani=K_C11_W, assumptions=A_COMMON,
+                not_covered=NOT_GEN + '; TLengthProtocolExt/TOutputProtocolExt closure helpers (field_len!, list_len, write_list, ...) not under contract; TLengthProtocol of TCompactInputProtocol not under contract'),
+    'C05': dict(verus=[], kani=K_PB, assumptions=A_COMMON[:1] + ['bytes 1.8.0 Buf for &[u8] / BufMut for &mut [u8] are exercised as compiled (not assumed)', 'format! on error paths is stubbed in the Kani harnesses (message text not modelled)'],
+                not_covered='generated messages; repeated/packed/map/message/group/string/bytes codecs are not yet under a harness'),
+    'C06': dict(verus=[], kani=K_PB, assumptions=A_COMMON[:1] + ['format! on error paths is stubbed in the Kani harnesses'],
+                not_covered='generated messages and the field-type -> codec table of pilota-build (sint32/sint64 selection) are not covered in this revision'),
+    'C07': dict(verus=['skip', 'compact_skip'], kani=[], assumptions=A_COMMON,
+                not_covered='the contract proved for the recursive skipper is: depth 0 => Err, termination by depth, reported count == bytes consumed, exact size for every fixed-width type and for binary, Void/Stop rejected; element-by-element exactness of nested containers against a value grammar is not proved; async skipper and the iterative unchecked skipper are not under contract'),
+    'C09': dict(verus=THRIFT_UNITS, kani=['a3_varint_decode_total', 'rwext_read_i16', 'rwext_read_i32', 'rwext_read_i64', 'rwext_read_u64'], assumptions=A_COMMON,
+                not_covered=NOT_GEN + '; async readers; read_string/read_to_string (vec! allocation) not yet under contract'),
+    'C10': dict(verus=[], kani=['pb_varint_decode_total', 'pb_varint_roundtrip'], assumptions=A_COMMON[:1],
+                not_covered='only the varint decoders (incl. the unsafe decode_varint_slice) are decided in this revision'),
+    'C11': dict(verus=[], kani=K_C11_W + K_C11_R, assumptions=A_COMMON[:1] + ['the documented preconditions of the unchecked codec (window of the reported size; complete well-formed input) are the harness assumptions'],
+                not_covered='LinkedBytes variant and zero-copy insertion, unchecked read_field_begin/list/set/map_begin, read_bytes/read_faststr/get_bytes and the iterative skipper are not under a harness'),
+    'C18': dict(verus=[], kani=[h for h in K_PB if h not in ('pb_varint_roundtrip', 'pb_varint_decode_total')], assumptions=A_COMMON[:1],
+                not_covered='only "singular scalars take the last occurrence" (merge into an arbitrary pre-existing value) is decided; repeated/map/oneof/embedded/unknown-field semantics are not'),
 }
 
-# name -> dict(kind='leaf'|'bounded', bound='..', quick=bool, timeout=s, args=[..])
-KANI_HARNESSES = {
-}
+def _k(kind='leaf', quick=True, bound='', timeout=None):
+    d = dict(kind=kind, quick=quick, bound=bound)
+    if timeout:
+        d['timeout'] = timeout
+    return d
+
+KANI_HARNESSES = {h: _k() for h in K_SUPPORT + K_C11_W + K_C11_R + K_PB}
+KANI_HARNESSES['bnd_c11_w_bytes_le5'] = _k(kind='bounded', bound='payload length 0..=5, arbitrary content')
 
 # property -> [(regex on obligation name, replay program, args)]
 WITNESS = {
+    'C07': [(r'compact_skip', 'g4_compact_skip', [])],
 }
